@@ -142,7 +142,7 @@ static void run_col(int ntok, char **tok)
 	c->alpha = 0x11; c->red = 0x22; c->green = 0x33; c->blue = 0x44;
 	r = mpt_color_parse(c, txt);
 	if (r < 0) vh_tok("E|%02x%02x%02x%02x", c->alpha, c->red, c->green, c->blue);
-	else vh_tok("K%d|%02x%02x%02x%02x", r, c->alpha, c->red, c->green, c->blue);
+	else vh_tok("K|%02x%02x%02x%02x", c->alpha, c->red, c->green, c->blue);
 	/* query mode (no target) must give the same verdict */
 	r = mpt_color_parse(0, txt);
 	vh_tok(r < 0 ? "qE" : "qK");
